@@ -409,8 +409,16 @@ func (in *Interp) extractWitness(label, kind, where string) *Violation {
 	v := &Violation{Harness: in.harness, Label: label, Kind: kind, Where: where, Stack: in.stack(),
 		Trace: append([]int(nil), in.trace...), Vars: map[string]interface{}{}, UFs: map[string][]UFEntry{}, Logs: append([]string(nil), in.logs...)}
 	var exprs []string
+	// only terms the solver has already seen are queried: anything else is unconstrained, and
+	// declaring it here (inside a pushed scope) would be lost on pop
+	var nds []nondetRec
 	for _, n := range in.nondets {
-		exprs = append(exprs, in.pr.Print(n.T))
+		if _, seen := in.pr.memo[n.T]; seen || n.T.IsConst() {
+			nds = append(nds, n)
+			exprs = append(exprs, in.pr.Print(n.T))
+		} else {
+			v.Vars[n.Name] = defaultVal(n.T.Sort)
+		}
 	}
 	type ufq struct {
 		t    *Term
@@ -419,6 +427,9 @@ func (in *Interp) extractWitness(label, kind, where string) *Violation {
 	}
 	var ufqs []ufq
 	for _, t := range in.ufApps {
+		if _, seen := in.pr.memo[t]; !seen {
+			continue
+		}
 		q := ufq{t: t, from: len(exprs)}
 		for _, a := range t.Args {
 			exprs = append(exprs, in.pr.Print(a))
@@ -433,7 +444,7 @@ func (in *Interp) extractWitness(label, kind, where string) *Violation {
 		v.Vars["_error"] = err.Error()
 		return v
 	}
-	for i, n := range in.nondets {
+	for i, n := range nds {
 		v.Vars[n.Name] = decodeVal(n.T.Sort, vals[i])
 	}
 	for _, q := range ufqs {
@@ -446,6 +457,21 @@ func (in *Interp) extractWitness(label, kind, where string) *Violation {
 		v.UFs[name] = append(v.UFs[name], ent)
 	}
 	return v
+}
+
+func defaultVal(s Sort) interface{} {
+	switch s.K {
+	case KBool:
+		return false
+	case KBV:
+		if s.W == 64 {
+			return "0"
+		}
+		return 0
+	case KStr:
+		return ""
+	}
+	return 0
 }
 
 func decodeVal(s Sort, raw string) interface{} {
